@@ -72,11 +72,16 @@ def render (style : Style) (childiter : List (Tree α) → List (Tree α)) (maxl
 /-- `_repr(node, args, nameblacklist)`: class name, the given positional arguments, then the public
 instance attributes (`not key.startswith('_')`, not blacklisted) sorted by key as `key=<repr>`;
 `attrs` carries each value's `repr` text (CPython's) -/
+def shownAttrs (blacklist : List String) (attrs : List (String × String)) : List (String × String) :=
+  attrs.filter (fun e => !e.1.startsWith "_" && !blacklist.contains e.1)
+
+/-- `sorted(..., key=lambda item: item[0])` -/
+def sortedShown (blacklist : List String) (attrs : List (String × String)) : List (String × String) :=
+  (shownAttrs blacklist attrs).mergeSort (fun x y => decide (x.1 ≤ y.1))
+
 def nodeRepr (classname : String) (args : List String) (blacklist : List String)
     (attrs : List (String × String)) : String :=
-  let shown := (attrs.filter (fun e => !e.1.startsWith "_" && !blacklist.contains e.1))
-  let sorted := (shown.toArray.qsort (fun x y => x.1 < y.1)).toList
-  classname ++ "(" ++ ", ".intercalate (args ++ sorted.map (fun e => e.1 ++ "=" ++ e.2)) ++ ")"
+  classname ++ "(" ++ ", ".intercalate (args ++ (sortedShown blacklist attrs).map (fun e => e.1 ++ "=" ++ e.2)) ++ ")"
 
 /-- `Node.__repr__`'s positional argument: `separator.join([""] + [str(node.name) for node in path])`,
 before `%r` is applied to it -/
